@@ -181,6 +181,8 @@ def run_script_case(script, subdir, exes, queries=None, seed=0, tier="quick", va
             for c in commits:
                 for p in info["parents"][c]:
                     pairs.append((p, c))
+                    if rng.random() < 0.5:
+                        pairs.append((c, p))       # reversed: what the child added is deleted, files still on disk
             for c in commits:
                 pairs.append((c, head))
             for _ in range(4):
@@ -270,7 +272,8 @@ def run_script_case(script, subdir, exes, queries=None, seed=0, tier="quick", va
 def corpus_cases():
     p = os.path.join(CORPUS, "git.jsonl")
     out = []
-    if os.path.exists(p):
+    # SGV_NO_CORPUS=1: generated histories only (to measure what the generator finds by itself)
+    if os.path.exists(p) and not os.environ.get("SGV_NO_CORPUS"):
         for line in open(p):
             if line.strip():
                 out.append(json.loads(line))
